@@ -1229,3 +1229,9 @@ def probe_known(ctx, finding):
         except Exception as e:  # noqa
             print("note: session-level replay skipped (%s)" % type(e).__name__)
     return still
+
+
+# somebody else's classes: the documented extension points used the way a third party uses them (props/thirdparty.py)
+from props import thirdparty as _thirdparty  # noqa: E402
+
+correspondence, search, replay = _thirdparty.attach(PID, correspondence, search, replay)
